@@ -278,6 +278,9 @@ def get_arg_ctx_ast(
             # Cannot deal with it for the time being
             return None
 
+    unpacked_from = next(
+        (i for (i, a) in enumerate(args) if isinstance(a, ast.Starred)), None
+    )
     for (idx, (n, p_)) in enumerate(arg_sig.parameters.items()):
         p: inspect.Parameter = p_
         # _logger.debug(f"get_arg_ctx: {f}: idx={idx} n={n} p={p}")
@@ -294,12 +297,20 @@ def get_arg_ctx_ast(
                 f"simpler sorts of arguments (no kargs or kwargs)."
                 f" The full signature was: {arg_sig}"
             )
-        if idx < num_args:
+        if unpacked_from is not None and idx >= unpacked_from:
+            # The call unpacks a sequence (*values): this parameter and the following ones may be
+            # bound by it, their values are only known when the code runs.
+            h = None
+        elif idx < num_args:
             # It is a list argument
             h = process_arg(args[idx])
         else:
             if n in kwargs:
                 h = process_arg(kwargs[n])
+            elif None in kwargs:
+                # The call unpacks a dictionary (**options): this parameter may be bound by it,
+                # its value is only known when the code runs.
+                h = None
             elif p.default != Parameter.empty:
                 # Argument is not provided but it has a default value
                 # Use the default argument as an input
